@@ -7,6 +7,7 @@ import (
 	"encoding/hex"
 	"encoding/json"
 	"fmt"
+	"math/bits"
 	"os"
 	"testing"
 	"time"
@@ -344,9 +345,17 @@ var liar = &core.Check{Name: "c07/liar", Quick: 15000, Thorough: 1500000, Hang: 
 	case 12: // more than four refs
 		i := cellIdx()
 		n := c.OneOf("nrefs", 5, 6, 7)
+		if c.Bool("nrefs.notlast") && len(r.CellList) > 1 {
+			i = c.Choose("nrefs.cell", len(r.CellList)-1) // every added reference is a valid forward one then
+		}
 		r.CellList[i].D1 = r.CellList[i].D1&^7 | byte(n)
 		for len(r.CellList[i].Refs) < n {
 			r.CellList[i].Refs = append(r.CellList[i].Refs, uint64(len(r.CellList)-1))
+		}
+		if c.Bool("nrefs.hashes") && r.CellList[i].D1&16 == 0 {
+			// 7 references together with the stored-hashes bit is how an absent cell is marked
+			r.CellList[i].D1 |= 16
+			r.CellList[i].Hashes = c.Content("nrefs.hashdata", (bits.OnesCount8(r.CellList[i].D1>>5)+1)*34)
 		}
 	case 13: // d2 says more data than present / 128 bytes of data
 		i := cellIdx()
@@ -441,15 +450,30 @@ var liar = &core.Check{Name: "c07/liar", Quick: 15000, Thorough: 1500000, Hang: 
 		r.TotSize = uint64(len(r.Body()))
 	case 22, 23: // not a lie but a hostile shape: a long chain (deeper than the 1024 limit) or a wide sharing ladder
 		n := c.OneOf("chain", 300, 1023, 1024, 1025, 1026, 2500, 4000)
-		ladder := lie == 23
+		ladder, ladderKind := lie == 23, 0
 		if ladder { // every level doubles the number of paths: 40 levels unfold to 2^40 occurrences
 			n = c.OneOf("ladder", 12, 17, 40, 200)
+			ladderKind = c.Weighted("ladder.kind", 3, 1, 1, 1, 1)
+			c.Class(fmt.Sprintf("ladder of kind %d", ladderKind))
 		}
 		r = &ref.RawBoc{Magic: []byte{0xb5, 0xee, 0x9c, 0x72}, SizeByte: 2, OffBytes: 3, Cells: uint64(n), Roots: 1, RootList: []uint64{0}}
 		for i := 0; i < n; i++ {
 			cell := ref.RawCell{D1: 1, D2: 2, Data: []byte{byte(i)}, Refs: []uint64{uint64(i + 1)}}
 			if ladder && i+2 < n {
 				cell.D1, cell.Refs = 4, []uint64{uint64(i + 1), uint64(i + 1), uint64(i + 2), uint64(i + 2)}
+				// the rungs may claim to be exotic cells: leaves by their type, but carrying references here
+				switch ladderKind {
+				case 1:
+					cell.D1, cell.D2, cell.Data = 4|8, 4, []byte{1, 0}
+				case 2:
+					cell.D1, cell.D2, cell.Data = 4|8, 66, append([]byte{2}, bytes.Repeat([]byte{byte(i)}, 32)...)
+				case 3:
+					cell.D1, cell.D2, cell.Data = 4|8, 4, []byte{byte(c.OneOf("ladder.type", 0, 5, 9, 255)), byte(i)}
+				case 4:
+					if i%2 == 1 {
+						cell.D1, cell.D2, cell.Data = 4|8, 4, []byte{1, 0}
+					}
+				}
 			}
 			if i == n-1 {
 				cell.D1, cell.Refs = 0, nil
@@ -458,8 +482,11 @@ var liar = &core.Check{Name: "c07/liar", Quick: 15000, Thorough: 1500000, Hang: 
 		}
 		r.TotSize = uint64(len(r.Body()))
 	}
-	if lie <= 5 || lie == 19 || lie == 21 {
-		// keep the rest of the header consistent with itself where possible
+	if cellLie := lie >= 8 && lie <= 13 || lie == 17 || lie == 18 || lie == 20; cellLie && c.Intn("consistent", 4) != 0 {
+		// a lie inside one cell usually changes the size of the cell data; with a stale total the parser would
+		// stop at the header for the boring reason, so the header is brought in line with the body again
+		r.Resize()
+		c.Class("cell lie under a consistent header")
 	}
 	data := r.Bytes()
 	c.Note("input", trunc(hex.EncodeToString(data)))
